@@ -26,6 +26,14 @@ func (e *Enc) calleeKey(c *ssa.CallCommon) (string, *ssa.Function) {
 			return g.Pkg.Pkg.Path() + "." + g.Name(), nil
 		}
 	}
+	// call through a value of a named function type: keyed by the type, pkg.(TypeName)
+	if _, isClosure := c.Value.(*ssa.MakeClosure); !isClosure {
+		if n, ok := types.Unalias(c.Value.Type()).(*types.Named); ok {
+			if _, isSig := n.Underlying().(*types.Signature); isSig && n.Obj().Pkg() != nil {
+				return n.Obj().Pkg().Path() + ".(" + n.Obj().Name() + ")", nil
+			}
+		}
+	}
 	return "", nil
 }
 
@@ -175,6 +183,7 @@ func (e *Enc) callCommon(c *ssa.CallCommon, site ssa.Instruction, st *State, def
 	r := e.freshVal("ret_"+sanitize(lastName(key)), retT, false)
 	e.assumeHere(e.typeInvFormula(st, r))
 	e.recordRet(ShortKey(key), e.callOrd[key], r)
+	e.fireAssertAtCallAfter(c, pos, st, r)
 	return r
 }
 
@@ -337,7 +346,7 @@ func (e *Enc) havocDesignator(m Clause, env map[string]envEntry, st, old *State,
 			e.heapSet(st, a.HK, sStore(e.heapGet(st, a.HK), a.Idx, fresh))
 		}
 		if d.ghosts {
-			sfx := ":" + typeKey(d.ptr.T)
+			sfx := ":" + ghostOwnerKey(d.ptr.T)
 			for k, hk := range e.hkeys {
 				if strings.HasPrefix(k, typeKey(types.Typ[types.UnsafePointer])+"/ghost_") && strings.HasSuffix(k, sfx) {
 					fresh := e.declare(e.freshName("modg"), "Int")
@@ -526,15 +535,70 @@ func (e *Enc) fireAssertAtCall(c *ssa.CallCommon, pos token.Pos, st *State, befo
 	e.fireAssertAt("call", ShortKey(key), pos, st, extra, "true")
 }
 
-func (e *Enc) fireAssertAtCallAfter(c *ssa.CallCommon, pos token.Pos, st *State, r *Val) {}
+func (e *Enc) callSiteExtras(c *ssa.CallCommon) (string, map[string]*Val) {
+	key, _ := e.calleeKey(c)
+	if key == "" {
+		if fv, ok := e.vals[c.Value]; ok && fv.Closure != nil {
+			key = FuncKey(fv.Closure.Fn)
+		}
+	}
+	extra := map[string]*Val{}
+	i := 0
+	if c.IsInvoke() {
+		extra["recv"] = e.val(c.Value)
+		extra["arg0"] = extra["recv"]
+		i = 1
+	}
+	for _, a := range c.Args {
+		extra[fmt.Sprintf("arg%d", i)] = e.val(a)
+		i++
+	}
+	return ShortKey(key), extra
+}
+
+func (e *Enc) fireAssertAtCallAfter(c *ssa.CallCommon, pos token.Pos, st *State, r *Val) {
+	if e.ctr == nil || (len(e.ctr.AssertAts) == 0 && len(e.ctr.GhostAts) == 0) {
+		return
+	}
+	name, extra := e.callSiteExtras(c)
+	if r != nil && r.T != nil && len(r.L) > 0 {
+		extra["result"] = r
+	}
+	e.fireAt("call", name, false, pos, st, extra, "true")
+}
 
 func (e *Enc) fireAssertAt(kind, name string, pos token.Pos, st *State, extra map[string]*Val, cond string) {
+	e.fireAt(kind, name, true, pos, st, extra, cond)
+}
+
+// fireAt runs the assert-at / assume-at / ghost-at clauses attached to a site.
+func (e *Enc) fireAt(kind, name string, before bool, pos token.Pos, st *State, extra map[string]*Val, cond string) {
 	if e.ctr == nil {
 		return
 	}
+	mkctx := func() *specCtx {
+		var ctx *specCtx
+		if e.curBlock != nil {
+			ctx = e.ctxAt(e.curBlock, e.curInstrIndex()+1, st)
+		} else {
+			ctx = &specCtx{env: e.paramEnv(), st: st, old: e.entry, pkg: e.ctr.Pkg}
+		}
+		for k, v := range extra {
+			if k == "result" {
+				ctx.result = v
+				continue
+			}
+			ctx.env[k] = envEntry{V: v}
+		}
+		return ctx
+	}
+	when := "b"
+	if !before {
+		when = "a"
+	}
 	for i := range e.ctr.AssertAts {
 		aa := &e.ctr.AssertAts[i]
-		if aa.SelKind != kind {
+		if aa.SelKind != kind || aa.Before != before {
 			continue
 		}
 		if aa.Callee != "" && !matchCallee(aa.Callee, name) {
@@ -545,12 +609,29 @@ func (e *Enc) fireAssertAt(kind, name string, pos token.Pos, st *State, extra ma
 		if aa.Ord != 0 && aa.Ord != e.ords[cntKey] {
 			continue
 		}
-		ctx := e.ctxAt(e.curBlock, e.curInstrIndex(), st)
-		for k, v := range extra {
-			ctx.env[k] = envEntry{V: v}
+		f := e.evalBoolCtx(aa.C, mkctx())
+		if aa.Assume {
+			e.assumeHere(sImp(cond, f))
+			e.note("assume-at %s %s: %s (explicit assumption, not proved)", kind, name, aa.C.Src)
+			continue
 		}
-		f := e.evalBoolCtx(aa.C, ctx)
 		e.oblige("assert", fmt.Sprintf("assert.%d@%s.%d", i+1, name, e.ords[cntKey]), sImp(cond, f), pos, "assert-at "+kind+" "+name+": "+aa.C.Src)
+	}
+	for i := range e.ctr.GhostAts {
+		ga := &e.ctr.GhostAts[i]
+		if ga.SelKind != kind || (kind != "entry" && ga.Before != before) {
+			continue
+		}
+		if ga.Callee != "" && !matchCallee(ga.Callee, name) {
+			continue
+		}
+		cntKey := fmt.Sprintf("ga:%d:%s", i, when)
+		e.ords[cntKey]++
+		if ga.Ord != 0 && ga.Ord != e.ords[cntKey] {
+			continue
+		}
+		v := e.evalSpec(ga.C.E, mkctx())
+		st.ghost["g:"+ga.Var] = e.define("ghost", "Int", v.L[0])
 	}
 }
 
